@@ -13,6 +13,7 @@ CONSTANTS
   Periods = {1}
   NumGadgets = 6
   MaxScale = 4194304
+  Bug = "none"
   MaxIter = 22
 INVARIANT WellFormedInv
 INVARIANT VINearOptimal
